@@ -36,6 +36,11 @@ Families
                dt's point count at every call, stock.dt bitwise unchanged.
   hedger_reuse histories over {compute_hedge(A), compute_hedge(B), get_input(A, .), get_input(B, .)} on one Hedger:
                get_input(X, i) equals a freshly bound FeatureList on X (time column = oracle), hedge has X's grid.
+  listed_shared histories over {listed.simulate, other_derivative.simulate, stock.simulate, stock.register_buffer} on a
+               stock shared by a listed option (BS pricer) and an exotic: listed.spot, the spot / underlier_spot
+               features and compute_hedge(exotic, hedge=[stock, listed]) always follow the CURRENT underlier grid.
+  payoff_grid  ALL scripted paths: American binary / lookback payoffs agree with the last step of the library's own
+               running-extremum features (max_moneyness, Barrier) over the same T points.
 """
 from __future__ import annotations
 
@@ -1170,6 +1175,143 @@ def hedger_reuse(ctx, block):
 
 
 # ----------------------------------------------------------------------------
+# a listed derivative follows the grid of its underlier, whoever re-simulated it
+# ----------------------------------------------------------------------------
+
+def _bs_pricer(d):
+    from pfhedge.nn import BlackScholes
+    return BlackScholes(d).price(d.log_moneyness(), d.time_to_maturity(), d.ul().volatility)
+
+
+@family
+def listed_shared(ctx, block):
+    import pfhedge.instruments as I
+    from pfhedge.features import get_feature
+    from pfhedge.nn import Hedger, Naked
+    dtype = DT[block["dtype"]]
+    dt = block["dt"]
+    torch.manual_seed(0)
+    for hist in block["histories"]:
+        S = market.primary("brownian", dtype=dtype, dt=dt)
+        listed = I.EuropeanOption(S, maturity=5 * dt, strike=1.0)
+        listed.list(_bs_pricer, cost=0.0)
+        exotic = I.LookbackOption(S, maturity=8 * dt, strike=1.0)
+        f_spot = get_feature("spot").of(listed)                  # bound once
+        ctx.add("traces_validated_against_impl", 1)
+        by_other = False
+        for r, op in enumerate(hist):
+            mini = dict(block, histories=[hist[:r + 1]])
+            ctx.add("transitions", 1)
+            if op == "sim_listed":
+                listed.simulate(n_paths=2)
+                N, T = 2, R.expected_points(5 * dt, dt)[0]
+            elif op == "sim_exotic":
+                exotic.simulate(n_paths=2)
+                N, T = 2, R.expected_points(8 * dt, dt)[0]
+                by_other = True
+            elif op == "sim_stock":
+                S.simulate(n_paths=3, time_horizon=3 * dt)
+                N, T = 3, R.expected_points(3 * dt, dt)[0]
+                by_other = True
+            elif op == "set_buffer":
+                S.register_buffer("spot", torch.full((2, 4), 1.0, dtype=dtype) + 0.125 * torch.arange(4, dtype=dtype))
+                N, T = 2, 4
+                by_other = True
+            else:
+                raise KeyError(op)
+            when = "underlier_resimulated_elsewhere" if by_other else "own_simulate"
+            ctx.tick(1, nontrivial=1 if by_other else 0)
+            problems = []
+            try:
+                if tuple(S.spot.shape) != (N, T):
+                    problems.append(("underlier_points", f"underlier grid {tuple(S.spot.shape)}, expected ({N}, {T})", list(S.spot.shape), [N, T]))
+                else:
+                    q = listed.spot
+                    want = _bs_pricer(listed)
+                    if tuple(q.shape) != (N, T):
+                        problems.append(("listed_spot_shape", f"listed.spot has grid {tuple(q.shape)}, its underlier ({N}, {T})",
+                                         list(q.shape), [N, T]))
+                    elif not _same(q, want):
+                        problems.append(("listed_spot_stale_values", "listed.spot is not the pricer on the current paths",
+                                         q[0].tolist(), want[0].tolist()))
+                    g1 = f_spot.get(None)
+                    g2 = get_feature("underlier_spot").of(listed).get(None)
+                    ctx.tick(2)
+                    if tuple(g1.shape) != (N, T, 1) or tuple(g2.shape) != (N, T, 1):
+                        problems.append(("features_disagree", f"feature spot {tuple(g1.shape)} vs underlier_spot {tuple(g2.shape)}",
+                                         [list(g1.shape), list(g2.shape)], [N, T, 1]))
+                    for mname, inputs in (("state_independent", ["zeros"]), ("state_dependent", ["zeros", "prev_hedge"])):
+                        hg = Hedger(Naked(2), inputs)
+                        with torch.no_grad():
+                            h = hg.compute_hedge(exotic, hedge=[S, listed])
+                            pl_ = hg.compute_pl(exotic, hedge=[S, listed])
+                        ctx.tick(2)
+                        if tuple(h.shape) != (N, 2, T) or tuple(pl_.shape) != (N,):
+                            problems.append((f"hedge_shape_{mname}", f"compute_hedge {tuple(h.shape)}", list(h.shape), [N, 2, T]))
+            except Exception as e:
+                problems.append((f"raises:{type(e).__name__}", f"{type(e).__name__}: {str(e)[:200]}", repr(e)[:200], "no exception"))
+            ctx.outcome((op, r, T, N, len(problems)))
+            ctx.add("states", 1)
+            for what, msg, obs, exp in problems:
+                ctx.violation("EuropeanOption.spot", f"{when}_{what}",
+                              f"history {hist[:r + 1]} (stock dt={dt!r} shared by a listed EuropeanOption(maturity=5dt) with a BS pricer "
+                              f"and a LookbackOption(maturity=8dt); sim_stock = stock.simulate(3dt, 3 paths)); current underlier grid "
+                              f"({N}, {T}): {msg}", observed=obs, expected=exp, block=mini)
+            if problems:
+                break
+
+
+# ----------------------------------------------------------------------------
+# payoffs and the running-extremum features live on the same T points
+# ----------------------------------------------------------------------------
+
+@family
+def payoff_grid(ctx, block):
+    import pfhedge.instruments as I
+    from pfhedge.features import get_feature
+    from pfhedge.features.features import Barrier
+    from mc.core.explore import all_paths
+    dtype = DT[block["dtype"]]
+    T, A, K = block["T"], block["A"], block["strike"]
+    spot = all_paths(A, T, dtype=dtype)
+    if block.get("rows") is not None:
+        spot = spot[block["rows"]]
+    base = block.get("rows")
+    N = spot.size(0)
+    S = market.primary("brownian", dtype=dtype, dt=market.DT)
+    market.set_buffers(S, spot=spot)
+    only_first = (spot[:, 0] >= K) & (spot[:, 1:] < K).all(dim=1)      # barrier touched at inception only
+    for call in (True, False):
+        ab = I.AmericanBinaryOption(S, call=call, strike=K, maturity=(T - 1) * market.DT)
+        lb = I.LookbackOption(S, call=call, strike=K, maturity=(T - 1) * market.DT)
+        pay = ab.payoff()
+        bar = Barrier(K, up=call).of(ab).get(T - 1)[:, 0, 0]
+        bar_all = Barrier(K, up=call).of(ab).get(None)[:, -1, 0]
+        checks = [("AmericanBinaryOption.payoff", "vs_barrier_feature_last_step", pay, bar),
+                  ("AmericanBinaryOption.payoff", "vs_barrier_feature_grid_last_column", pay, bar_all)]
+        if call:
+            mm = get_feature("max_moneyness").of(ab).get(T - 1)[:, 0, 0]
+            checks.append(("AmericanBinaryOption.payoff", "vs_max_moneyness_last_step", pay, (mm >= 1).to(dtype)))
+            mml = get_feature("max_moneyness").of(lb).get(T - 1)[:, 0, 0]
+            checks.append(("LookbackOption.payoff", "vs_max_moneyness_last_step", lb.payoff(), torch.relu(mml * K - K)))
+            checks.append(("LookbackOption.payoff", "vs_max_over_all_points", lb.payoff(), torch.relu(spot.max(dim=1).values - K)))
+        else:
+            checks.append(("LookbackOption.payoff", "vs_min_over_all_points", lb.payoff(), torch.relu(K - spot.min(dim=1).values)))
+        for site, what, got, want in checks:
+            ctx.tick(N, nontrivial=int(only_first.sum()) if call else int(((spot[:, 0] <= K) & (spot[:, 1:] > K).all(dim=1)).sum()))
+            bad = (got != want).nonzero().flatten().tolist() if got.shape == want.shape else [0]
+            for i in bad:
+                path = spot[i].tolist()
+                first_only = (path[0] >= K and all(x < K for x in path[1:])) if call else (path[0] <= K and all(x > K for x in path[1:]))
+                ctx.violation(site, f"{what}_{'call' if call else 'put'}" + ("_extremum_at_step_0_only" if first_only else ""),
+                              f"{site.split('.')[0]}({'call' if call else 'put'}, strike={K}) on the path {path} (T={T} points): payoff "
+                              f"{float(got[i]) if got.dim() else got!r} but the library's running-extremum over the same T points gives "
+                              f"{float(want[i])!r}", observed=float(got[i]), expected=float(want[i]),
+                              block=dict(block, rows=[base[i] if base is not None else i]))
+        ctx.outcome((T, K, call, float(pay.sum())))
+
+
+# ----------------------------------------------------------------------------
 
 def _chunks(cases, n):
     return [cases[i:i + n] for i in range(0, len(cases), n)]
@@ -1205,7 +1347,10 @@ def run(ctx):
              "default dtype and float32 with python-float dts (incl. 0.3, 0.1/3) on k <= 4 (24).  tensor_dt: 8 primaries x "
              "{float32, float64} x dt symbols as 0-dim tensors x simulate histories of length 3-4; non-trivial = repeated "
              "calls.  hedger_reuse: every operation sequence of length <= 3 (4) ending with a get_input or hedge_B x 4 "
-             "(A, B) configurations x 2 input lists; non-trivial = operations after the hedger saw the other derivative")
+             "(A, B) configurations x 2 input lists; non-trivial = operations after the hedger saw the other derivative.  listed_shared: every operation sequence of "
+             "length <= 3 (4) over 4 operations x dt; non-trivial = states after the underlier was re-simulated by someone "
+             "else.  payoff_grid: all 3^T paths (T = 2..4 (6)) x 3 strikes x call/put x dtype; non-trivial = paths whose "
+             "extremum touches the barrier at step 0 only")
     ctx.assume("expected number of points computed with exact Fractions on the float arguments; 'integer' = within "
                "4*2^-52*k of k; no enumerated pair lies between that and 1e-6 of an integer (asserted)")
     ctx.assume("the number of steps does not depend on the random draws (seed fixed, values unused)")
@@ -1413,9 +1558,22 @@ def run(ctx):
                     blocks.append(("hedger_reuse", {"config": cfg, "inputs": inputs, "A": [dtA, kA], "dtype": "float64",
                                                     "histories": ch}))
 
+    # a listed derivative shares its underlier with another derivative
+    lops = ["sim_listed", "sim_exotic", "sim_stock", "set_buffer"]
+    lh = [list(h) for L in range(1, ctx.pick(3, 4) + 1) for h in itertools.product(lops, repeat=L)]
+    ctx.alphabet("listed_shared operations", lops)
+    for dt_ in ([1 / 250, 0.1] if ctx.quick else [d_[1] for d_ in dts]):
+        for ch in _chunks(lh, 64):
+            blocks.append(("listed_shared", {"dt": dt_, "dtype": "float64", "histories": ch}))
+    # payoffs vs the running-extremum features on ALL scripted paths
+    for T_ in ([2, 3, 4] if ctx.quick else [2, 3, 4, 5, 6]):
+        for K_ in (1.0, 1.25, 0.75):
+            for dtype in ("float64", "float32"):
+                blocks.append(("payoff_grid", {"T": T_, "A": [0.75, 1.0, 1.25], "strike": K_, "dtype": dtype}))
+
     if ctx.thorough:
         for name in ("grid_steps", "ttm", "grid_use", "cross_dt", "resimulate", "long_grid", "local_vol", "swap",
-                     "forward_start", "hedge_grids", "tensor_dt", "hedger_reuse"):
+                     "forward_start", "hedge_grids", "tensor_dt", "hedger_reuse", "listed_shared", "payoff_grid"):
             ctx.run_parallel(name, [b for n, b in blocks if n == name])
     else:
         for name, b in blocks:
